@@ -73,14 +73,10 @@ class TransactionBackend(Backend):
         expire: float | None = None,
         exist: bool | None = None,
     ) -> bool:
-        if (
-            exist is not None
-            and await self._backend.exists(key) is not exist
-            and await self._local_cache.exists(key) is not exist
-        ):
+        if exist is not None and await self.exists(key) is not exist:
             return False
         self._to_delete.discard(key)
-        return await self._local_cache.set(key, value, expire, exist)
+        return await self._local_cache.set(key, value, expire)
 
     async def set_many(self, pairs: Mapping[Key, Value], expire: float | None = None):
         self._to_delete.difference_update(pairs.keys())
